@@ -331,6 +331,20 @@ func (c *Ctx) ruleLifecycle(rule string, want map[string]bool) {
 				okMap = !wrong
 			}
 			chk(fmt.Sprintf("engine-call%d-own-result", i+1), okMap, ec.Pos(), "the method must return the error of its engine call and the result map of the same engine, read after the call")
+			// the error part on its own (armed by the properties whose clauses speak of the call's error)
+			_, wrongErr := pathExists(fn, ec, func(in ssa.Instruction) bool {
+				r, ok := in.(*ssa.Return)
+				if !ok {
+					return false
+				}
+				for _, v := range x.valuesVia(fn, ec, r, r.Results[0]) {
+					if v != ssa.Value(ec) {
+						return true
+					}
+				}
+				return false
+			}, nil)
+			chk(fmt.Sprintf("engine-call%d-own-error", i+1), !wrongErr, ec.Pos(), "the method must return the error of its engine call: a failure of the model must reach the caller")
 			// no pool lock held while the rules run (U6)
 			held := x.heldAt(ec)
 			chk(fmt.Sprintf("engine-call%d-no-lock", i+1), len(held) == 0, ec.Pos(), "no pool lock may be held while rules run (an update triggered by a rule would deadlock): held %v", heldNames(held))
@@ -1037,4 +1051,22 @@ func wrapperFieldWrite(x *FnIndex, in ssa.Instruction) string {
 		}
 	}
 	return ""
+}
+
+// armPoolError: the pool methods accepted by pick return the error of their engine call (the own-error
+// slots of the request life cycle), recorded under rule.
+func (c *Ctx) armPoolError(rule string, pick func(method string) bool, min int) {
+	c.only = func(key string) bool {
+		if !strings.HasSuffix(key, "-own-error") {
+			return false
+		}
+		m := strings.TrimPrefix(key, "GenginePool.")
+		if i := strings.Index(m, "/"); i >= 0 {
+			m = m[:i]
+		}
+		return pick(m)
+	}
+	c.ruleLifecycle(rule, nil)
+	c.only = nil
+	c.Min(rule, min)
 }
